@@ -1,4 +1,6 @@
 import MesaModel.Proofs.StepCounter
+import MesaModel.Proofs.StepMro
+import MesaModel.Proofs.StepNested
 /-!
 # C05 — every `step()` call advances `model.steps` by exactly one, before user code
 
@@ -9,6 +11,16 @@ independently inherits or overrides `step`, calls `super().step(...)` or not, ta
 user bodies made (`depth`, `steps` as seen inside, arguments received), and whether it returned
 normally (`false` = `TypeError` from an argument mismatch somewhere along the chain).
 `overriding h 0` lists the depths of the levels that define `step`, in MRO order.
+
+Multiple inheritance (`Model/StepMro.lean`): classes may have several bases (other classes, `mesa.Model` = class 0,
+or none at all = a plain mixin); a `Table` records the MRO Python computes for each class by C3 linearisation, and an
+instance of class `c` runs through the hierarchy `T.hier lvls c` = the classes of its MRO in front of `Model`.  All
+theorems of the first part are about *every* hierarchy, hence about every instance of every class of every table; the
+last part says what the MRO is and what that means for the bodies (`TInv T`: `T` is a table of linearisations — true
+for every table reachable by class definitions, `C05_class_tables_are_linearisations`).
+
+Nested calls (`Model/StepNested.lean`): a step body may step *another* model instance; `stepNested` / `runNested`
+return the calls in the order they start, and the theorems say they are ordinary calls.
 -/
 namespace Mesa.Steps
 
@@ -115,6 +127,134 @@ theorem C05_all_interleavings_count (ops : List Op) (hnr : ∀ op ∈ ops, op.is
       rw [this, h1]
       cases hs : op.isStepOn j <;> simp [hs] <;> omega
 
+/-! ## multiple inheritance: the MRO is the C3 linearisation -/
+
+/-- Every table built by any sequence of (successful) class definitions — single or multiple inheritance,
+    mixins, diamonds — is a table of linearisations. -/
+theorem C05_class_tables_are_linearisations (defs : List (List Nat)) (T : Table)
+    (h : defs.foldlM (fun (T : Table) b => T.define b) Table.init = some T) : TInv T :=
+  TInv_foldlM defs Table.init T TInv_init h
+
+/-- `class K(B1, …, Bn)`: if Python accepts the definition, the MRO of `K` starts with `K`, lists nobody twice,
+    keeps the MRO of every base as a subsequence (monotonicity) and the bases in the order written (local
+    precedence), and contains nothing but `K`, its bases and their ancestors; earlier classes are unaffected. -/
+theorem C05_mro_is_c3_linearisation (T T' : Table) (hT : TInv T) (bases : List Nat) (h : T.define bases = some T') :
+    TInv T' ∧ T'.length = T.length + 1 ∧ (∀ c, c < T.length → T'.mro c = T.mro c) ∧
+    (T'.mro T.length).head? = some T.length ∧ (T'.mro T.length).Nodup ∧
+    (∀ b ∈ bases, (T.mro b).Sublist (T'.mro T.length)) ∧ bases.Sublist (T'.mro T.length) ∧
+    (∀ x ∈ T'.mro T.length, x = T.length ∨ x ∈ bases ∨ ∃ b ∈ bases, x ∈ T.mro b) := by
+  have hT' := TInv_define hT h
+  unfold Table.define at h
+  obtain ⟨m, hl, rfl⟩ := Option.map_eq_some_iff.mp h
+  obtain ⟨h1, h2, _, h4, h5, h6, _⟩ := Table.linearise_spec hT hl
+  have hm : (T ++ [m]).mro T.length = m := by simp [Table.mro]
+  refine ⟨hT', by simp, fun c hc => ?_, ?_, ?_, ?_, ?_, ?_⟩
+  · simp [Table.mro, List.getElem?_append_left hc]
+  all_goals rw [hm]
+  · exact h1
+  · exact h2
+  · exact h4
+  · exact h5
+  · exact h6
+
+/-- Single inheritance is the special case the first part models directly: the MRO of `class K(B)` is `K`
+    followed by the MRO of `B`, so an instance of `K` runs through `K`'s level followed by the hierarchy of `B`. -/
+theorem C05_single_inheritance_mro_is_the_chain (T : Table) (hT : TInv T) (b : Nat) (hb : b < T.length)
+    (lvls : Nat → Level) :
+    T.define [b] = some (T ++ [T.length :: T.mro b]) ∧
+    (T ++ [T.length :: T.mro b]).hier lvls T.length = lvls T.length :: T.hier lvls b := by
+  refine ⟨by simp [Table.define, Table.linearise_single hT hb], ?_⟩
+  have hne : T.length ≠ 0 := by omega
+  simp [Table.hier, Table.labels, Table.mro, hne]
+
+/-- Whatever the class graph: during one `step()` on an instance of class `c` every user body that runs
+    belongs to a class of `c`'s MRO in front of `Model` that defines `step`; the classes run in MRO order and
+    **each at most once** — the shared base of a diamond runs once, not once per path. -/
+theorem C05_each_class_body_once_in_mro_order (T : Table) (hT : TInv T) (lvls : Nat → Level) (c : Nat)
+    (i : Inst) (hi : i.hier = T.hier lvls c) (args : List Int) :
+    let ran := (callStep i args).2.1.filterMap (fun e => (T.labels c)[e.depth]?)
+    ran.length = (callStep i args).2.1.length ∧ ran.Sublist (T.labels c) ∧ ran.Nodup ∧
+    ∀ k ∈ ran, k ≠ 0 ∧ k ∈ T.mro c ∧ (lvls k).overrides = true := by
+  intro ran
+  obtain ⟨hpre, hpw⟩ := C05_bodies_are_override_chain i args
+  have hran : ran = ((callStep i args).2.1.map (·.depth)).filterMap ((T.labels c)[·]?) := by
+    simp only [ran, List.filterMap_map]; rfl
+  have hlen : (T.labels c).length = i.hier.length := by simp [hi, Table.hier]
+  have hover : ∀ d ∈ (callStep i args).2.1.map (·.depth), d ∈ overriding i.hier 0 := fun d hd => hpre.subset hd
+  have hnd : (T.labels c).Nodup := by
+    have : (T.mro c).Nodup := by
+      unfold Table.mro
+      cases hc : T[c]? with
+      | none => simp
+      | some m => simpa using (hT c m hc).2.2
+    exact this.sublist (List.takeWhile_sublist _)
+  have hsub : ran.Sublist (T.labels c) := by rw [hran]; exact filterMap_getElem?_sublist _ _ hpw
+  refine ⟨?_, hsub, hnd.sublist hsub, ?_⟩
+  · rw [hran, length_filterMap_of_isSome, List.length_map]
+    intro d hd
+    have := overriding_lt i.hier 0 d (hover d hd)
+    have hd' : d < (T.labels c).length := by omega
+    simp [List.getElem?_eq_getElem hd']
+  · intro k hk
+    rw [hran] at hk
+    obtain ⟨d, hd, hdk⟩ := List.mem_filterMap.mp hk
+    obtain ⟨L, hL1, hL2⟩ := mem_overriding i.hier 0 d (hover d hd)
+    have hkmem : k ∈ T.labels c := List.mem_of_getElem? hdk
+    refine ⟨?_, (List.takeWhile_sublist _).subset hkmem, ?_⟩
+    · have := of_mem_takeWhile hkmem
+      simpa using this
+    · simp only [hi, Table.hier, Nat.sub_zero, List.getElem?_map, hdk, Option.map_some, Option.some.injEq] at hL1
+      rw [hL1]; exact hL2
+
+/-! ## nested step calls across model instances -/
+
+/-- **A `step()` made from inside another model's step body is an ordinary `step()`.**  Whatever the linking of
+    instances (each body of `i` steps the instance `i` is linked to, links pointing to later instances only), one
+    call `model_i.step(*args)` — with everything it sets off — leaves all instances exactly as the same calls made one
+    after the other at top level would; every call, nested or not, records what a top-level call records at that
+    moment — in particular each of its bodies sees its *own* instance's counter already advanced by one; and the
+    counter of every instance ends advanced by exactly the number of calls made on it, nested ones included.
+    (No instance-external state: a guard or counter shared between models breaks the second clause.) -/
+theorem C05_nested_calls_are_ordinary_calls (links : List (Option Nat)) (f : Nat) (w : List Inst) (i : Nat)
+    (args : List Int) :
+    let r := stepNested links f w i args
+    r.1 = run w (r.2.map Call.toOp) ∧
+    (∀ pre c post, r.2 = pre ++ c :: post →
+      ∃ x, (run w (pre.map Call.toOp))[c.inst]? = some x ∧ (callStep x c.args).2 = (c.entries, c.ok) ∧
+        ∀ e ∈ c.entries, e.steps = x.steps + 1) ∧
+    (∀ j x, w[j]? = some x → r.1[j]?.map (·.steps) = some (x.steps + (r.2.filter (fun c => c.inst == j)).length)) := by
+  intro r
+  obtain ⟨h1, h2⟩ := stepNested_flat links f w i args
+  refine ⟨h1, fun pre c post hc => ?_, fun j x hx => ?_⟩
+  · obtain ⟨x, hx1, hx2⟩ := h2 pre c post hc
+    refine ⟨x, hx1, hx2, fun e he => ?_⟩
+    have : c.entries = (callStep x c.args).2.1 := by rw [hx2]
+    rw [this] at he
+    exact C05_increment_before_user_code x c.args e he
+  · show (stepNested links f w i args).1[j]?.map (·.steps) = _
+    rw [h1]
+    have hcount := C05_all_interleavings_count ((stepNested links f w i args).2.map Call.toOp)
+      (fun op hop => by obtain ⟨c, _, rfl⟩ := List.mem_map.mp hop; rfl) w j x hx
+    rw [hcount]
+    congr 2
+    rw [List.filter_map, List.length_map]
+    rfl
+
+/-- …and so is a `run_model()` whose steps set off nested calls. -/
+theorem C05_nested_run_is_ordinary_calls (links : List (Option Nat)) (f : Nat) (w w' : List Inst) (i : Nat)
+    (cs : List Call) (h : runNested links f w i = some (w', cs)) :
+    w' = run w (cs.map Call.toOp) ∧
+    ∀ j x, w[j]? = some x → w'[j]?.map (·.steps) = some (x.steps + (cs.filter (fun c => c.inst == j)).length) := by
+  obtain ⟨h1, _⟩ := runNested_flat links f w i w' cs h
+  refine ⟨h1, fun j x hx => ?_⟩
+  rw [h1]
+  have hcount := C05_all_interleavings_count (cs.map Call.toOp)
+    (fun op hop => by obtain ⟨c, _, rfl⟩ := List.mem_map.mp hop; rfl) w j x hx
+  rw [hcount]
+  congr 2
+  rw [List.filter_map, List.length_map]
+  rfl
+
 /-! ### non-vacuity -/
 
 /-- depth-4 chain: level 0 inherits, level 1 overrides and calls super with arguments, level 2 inherits,
@@ -137,5 +277,32 @@ example :
     let a : Inst := Inst.new [⟨true, false, false⟩] 9
     let b : Inst := Inst.new [] 9
     (run [a, b] [.step 0 [], .step 1 [], .step 0 [], .halt 1, .step 0 []]).map (·.steps) = [3, 1] := by decide
+
+/-- a driver whose two bodies each step a sub-model, which itself steps a third: one `driver.step()` makes 1 + 2 + 2
+    calls; the sub-model's bodies see its own counter (4, then 5), not the driver's -/
+example :
+    let d : Inst := { Inst.new [⟨true, true, false⟩, ⟨true, false, false⟩] 99 with steps := 10 }
+    let s : Inst := { Inst.new [⟨true, false, false⟩] 99 with steps := 3 }
+    let t : Inst := Inst.new [] 99
+    let r := stepNested [some 1, some 2, none] 4 [d, s, t] 0 []
+    r.1.map (·.steps) = [11, 5, 2] ∧
+    r.2.map (fun c => (c.inst, c.entries.map (·.steps))) = [(0, [11, 11]), (1, [4]), (2, []), (1, [5]), (2, [])] := by
+  decide
+
+/-- the diamond `A(Model)`, `B(A)`, `C(A)`, `D(B, C)`, every class overriding `step` and calling `super().step()`:
+    the MRO of `D` is D, B, C, A, Model — `B`'s `super()` leads to `C`, not to `A` — and one `step()` runs the four
+    bodies once each, all seeing the incremented counter -/
+example :
+    let defs := [[0], [1], [1], [2, 3]]
+    let lv : Nat → Level := fun _ => ⟨true, true, false⟩
+    (defs.foldlM (fun (T : Table) b => T.define b) Table.init).map (fun T =>
+      (T.mro 4, (callStep (Inst.new (T.hier lv 4) 9) []).2.1.map (fun e => ((T.labels 4)[e.depth]?, e.steps))))
+    = some ([4, 2, 3, 1, 0], [(some 4, 1), (some 2, 1), (some 3, 1), (some 1, 1)]) := by decide
+
+/-- a mixin in front of `Model` runs, the same mixin behind `Model` never does; `class X(Model, A)` with `A(Model)`
+    has no consistent MRO (TypeError at class creation) -/
+example :
+    (([[], [1, 0], [0, 1]].foldlM (fun (T : Table) b => T.define b) Table.init).map fun T => (T.labels 2, T.labels 3)) = some ([2, 1], [3]) ∧
+    [[0], [0, 1]].foldlM (fun (T : Table) b => T.define b) Table.init = none := by decide
 
 end Mesa.Steps
